@@ -826,6 +826,8 @@ func TestVerif_C13_Mem(t *testing.T) {
 			}
 		}
 	}
+	// one message in more than 2^16 frames (a tiny write buffer and a megabyte): frame counters, continuation opcodes far in
+	grid = append(grid, gridJob{b: 16, api: "NextWriter", big: 1<<20 + 4096}, gridJob{b: 14, api: "ReadFrom", big: 1 << 20})
 	for bi := len(bufs) - 1; bi >= 0; bi-- {
 		b := bufs[bi]
 		for li := -1; li < len(levels); li++ {
